@@ -39,6 +39,14 @@ impl Errors {
         self.inner.push(err);
     }
 
+    /// Whether any of the contained errors has an `error-severity` of `error`.
+    #[must_use]
+    pub fn has_severity_error(&self) -> bool {
+        self.inner
+            .iter()
+            .any(|err| err.severity == Severity::Error)
+    }
+
     pub fn iter(&self) -> impl Iterator<Item = &Error> {
         self.inner.iter()
     }
